@@ -31,6 +31,17 @@ STR = {
     'pairU': '"\\uD83D\\uDE00"', 'pairM': '"x\\uD83d\\uDe00\\uD834\\udd1e"',
     'uU': '"\\u00E9\\u00e9\\u2028"',
 }
+# adjacent string items: every ordered pair of these atoms (escapes, and
+# the plain characters that would continue an escape if the backslash in
+# front of them were read twice) - the lexical grammar of a string literal is
+# a *sequence* of items, each read once, left to right
+ATOMS = ['\\\\', '\\"', '\\/', '\\n', '\\u0041', '\\u00e9', 'u0041', 'x41',
+         'n', '0', 'b']
+PAIRS = {}
+for _i, _a in enumerate(ATOMS):
+    for _j, _b in enumerate(ATOMS):
+        PAIRS['p%dq%d' % (_i, _j)] = '"' + _a + _b + '"'
+STR.update(PAIRS)
 KEY = {
     'ident': '"a"', 'ident2': '"b"', 'space': '"a b"', 'numlike': '"1"',
     'empty': '""', 'dup': '"a"', 'esc': '"k\\n"', 'proto': '"__proto__"',
@@ -39,8 +50,10 @@ KEY = {
 THEMES = {
     'numbers': dict(num=sorted(NUM), str=['plain'], key=['ident'],
                     leaves=3, depth=1, width=2),
-    'strings': dict(num=['int'], str=sorted(STR), key=['ident'],
-                    leaves=3, depth=1, width=2),
+    'strings': dict(num=['int'], str=sorted(set(STR) - set(PAIRS)),
+                    key=['ident'], leaves=3, depth=1, width=2),
+    'escapes': dict(num=['int'], str=sorted(PAIRS), key=['ident'],
+                    leaves=1, depth=1, width=1),
     'keys': dict(num=['int'], str=['plain'], key=sorted(KEY),
                  leaves=3, depth=1, width=2),
     'structure': dict(num=['negfrac'], str=['slash'], key=['ident', 'space'],
@@ -49,6 +62,7 @@ THEMES = {
 THOROUGH = {
     'numbers': dict(leaves=4, depth=2, width=2),
     'strings': dict(leaves=4, depth=2, width=2),
+    'escapes': dict(leaves=2, depth=1, width=2),
     'keys': dict(leaves=4, depth=2, width=2),
     'structure': dict(leaves=6, depth=3, width=2),
 }
